@@ -237,6 +237,12 @@ func (c *Config) h2AllowedHost(host string) bool {
 		c.h2Config.AllowedHostsFilter(host)
 }
 
+// renewBefore is how long before its expiry a cached certificate is no longer used:
+// a minute, or half the validity when that is less.
+func (c *Config) renewBefore() time.Duration {
+	return min(time.Minute, c.validity/2)
+}
+
 func (c *Config) cert(ctx context.Context, hostname string) (*tls.Certificate, error) {
 	// Remove the port if it exists.
 	host, _, err := net.SplitHostPort(hostname)
@@ -250,9 +256,12 @@ func (c *Config) cert(ctx context.Context, hostname string) (*tls.Certificate, e
 
 		// Check validity of the certificate for hostname match, expiry, etc. In
 		// particular, if the cached certificate has expired, create a new one.
+		// The client verifies the certificate some time after it has been chosen:
+		// a certificate that is about to expire is replaced as well.
 		if _, err := tlsc.Leaf.Verify(x509.VerifyOptions{
-			DNSName: hostname,
-			Roots:   c.roots,
+			DNSName:     hostname,
+			Roots:       c.roots,
+			CurrentTime: time.Now().Add(c.renewBefore()),
 		}); err == nil {
 			return tlsc, nil
 		}
